@@ -52,7 +52,13 @@ Notes on expressibility
     * a table inside a list item has no ODF representation (text:list-item holds text:p / text:h / text:list only)
     * a hyperlink inside a hyperlink has no ODF representation
     * tracked changes exist only in text documents (office:text prelude); odp/odg take t, tab, br, a inlines only
-    * odp: exactly one ["h"] per slide (the title placeholder); meta header/footer: odt and ods only (master page)
+    * odp: exactly one ["h"] per slide (the title placeholder, its level is not representable and ignored);
+      meta header/footer: odt and ods only (master page)
+    * ragged table rows are written as they are (fewer cells than declared columns is schema-valid);
+      an empty cell of a text / draw table holds one empty paragraph, an empty spreadsheet cell is <table:table-cell/>
+    * ["s", ""] is a typed string cell with an empty text:p; multi-line strings become one text:p per line
+    * ["err", e] is written the way LibreOffice does: formula + office:value-type="string" office:string-value=""
+      + the error text as display paragraph (no calcext extension attributes: strict ODF 1.2)
 """
 from __future__ import annotations
 
@@ -589,7 +595,7 @@ class _Odt:
         return "".join(out)
 
     # -- blocks
-    def blocks(self, bs, out: list, pst: str, in_item: bool, nested_list: bool = False):
+    def blocks(self, bs, out: list, pst: str, in_item: bool):
         c = self.c
         for b in bs:
             k = b[0]
@@ -669,8 +675,8 @@ _DRAW_TABLE_AUTO = (
     'style:column-width="4cm"/></style:style>'
     '<style:style style:name="ro1" style:family="table-row"><style:table-row-properties style:row-height="1cm"/>'
     '</style:style>'
-    '<style:style style:name="ce1" style:family="table-cell"><style:graphic-properties draw:fill="none"/>'
-    '<style:table-cell-properties fo:border="0.03cm solid #000000"/></style:style>')
+    '<style:style style:name="ce1" style:family="table-cell"><style:table-cell-properties '
+    'fo:border="0.03cm solid #000000" fo:padding="0.1cm"/></style:style>')
 
 _ODP_AUTO = (
     '<style:style style:name="dp1" style:family="drawing-page"><style:drawing-page-properties '
@@ -971,10 +977,8 @@ def _dur(seconds) -> tuple:
     h, rem = divmod(whole, 3600)
     m, s = divmod(rem, 60)
     frac = ""
-    if not isinstance(a, int) and a != whole:
-        frac = repr(round(a - whole, 9))[1:]        # ".5"
-        if "e" in frac or not frac.startswith("."):
-            frac = ("%.9f" % (a - whole))[1:].rstrip("0")
+    if a != whole:
+        frac = ("%.9f" % (a - whole))[1:].rstrip("0").rstrip(".")      # ".5"
     return f"{sign}PT{h}H{m:02d}M{s:02d}{frac}S", f"{sign}{h}:{m:02d}:{s:02d}{frac}"
 
 
